@@ -7,7 +7,7 @@ from reactivex.internal.exceptions import DisposedException
 
 
 class subject:
-    def subscribe(s, o):
+    def subscribe(s, o, sch=None):  # (the scheduler a subscriber brings along changes nothing)
         if s.state == 3:
             raise DisposedException()
         if s.state == 0:
@@ -59,7 +59,7 @@ class subject:
 class behavior_subject(subject):
     """+ value: the last on_next value, or the initial value; handed to every new subscriber first"""
 
-    def subscribe(s, o):
+    def subscribe(s, o, sch=None):  # (the scheduler a subscriber brings along changes nothing)
         if s.state == 3:
             raise DisposedException()
         if s.state == 0:
@@ -88,7 +88,7 @@ class behavior_subject(subject):
 class async_subject(subject):
     """+ (has_value, value): nothing before termination; on completion the last value then completion"""
 
-    def subscribe(s, o):
+    def subscribe(s, o, sch=None):  # (the scheduler a subscriber brings along changes nothing)
         if s.state == 3:
             raise DisposedException()
         if s.state == 0:
